@@ -266,3 +266,29 @@ def nni_model(run):
         for k, v in r["summary"].get("ops", {}).items():
             d = run.extra.setdefault("ops_executed_on_real_code", {})
             d[k] = d.get(k, 0) + v
+
+
+# ------------------------------------------------------------------------------------------------
+# C15: operations involving a second tree: TwoTrees.tla
+
+TWO_TREES_CFG = """SPECIFICATION Spec
+CONSTANTS
+  MaxTips = %d
+  Pats = {%s}
+  Emit = TRUE
+INVARIANTS LocalEditsKeepTheRest EmitCases
+CHECK_DEADLOCK FALSE
+"""
+
+
+def two_trees_model(run):
+    import pipelines
+    mt, pats = (4, "1, 6") if run.tier == "quick" else (5, "1, 3, 6, 7")
+    out = vk.run_model(run, "TwoTrees", "TwoTrees.tla", TWO_TREES_CFG % (mt, pats), workers=8, heap="6g")
+    cases_path, n = emit_cases(run, "C15", [out], name="cases2")
+    run.extra["two_tree_model_bounds"] = dict(maxtips=mt, patterns=pats, second_trees=["cherry", "rooted3", "star3"])
+    res = replay_cases(run, "C15", cases_path, n, "replay-edit", "TraceEdit.tla", pipelines.TRACE_CFG % ('"C15"', "TRUE"), per_shard=40)
+    for r in res:
+        for k, v in r["summary"].get("ops", {}).items():
+            d = run.extra.setdefault("ops_executed_on_real_code", {})
+            d[k] = d.get(k, 0) + v
